@@ -158,27 +158,34 @@ Fixpoint parse (fuel : nat) (out : list Z) : option (list (Z * Z * Z * Z) * Z) :
    (2) a chunk that would take the pending list over either limit is answered with an error, and
        an error is the end of the connection (it is the last record and the connection is finished);
    (3) a frame whose declared size exceeds the maximum is refused, not waited for. *)
+Definition is_ok (status : Z) : bool := (status =? S_OK) || (status =? S_WAITING).
+
+Definition head_check (l : lim) (n b : Z) (f : cframe) (r : Z * Z * Z * Z) : bool :=
+  let '(status, n', b', buf') := r in
+  let ok := is_ok status in
+  let bounded :=
+    ((max_chunks l =? 0) || (n' <=? max_chunks l)) &&
+    ((max_size l =? 0) || ((b' <=? max_size l) && (negb ok || (buf' <=? max_size l)))) in
+  let c23 :=
+    match f with
+    | Chunk fin size _ _ =>
+        let exceeds := negb (fin =? 2) &&
+                       (((0 <? max_chunks l) && (max_chunks l <? n + 1)) ||
+                        ((0 <? max_size l) && (max_size l <? b + size))) in
+        if exceeds then negb ok else true
+    | Partial declared present =>
+        if (0 <? max_size l) && (max_size l <? declared) && (8 <? present) then negb ok else true
+    end in
+  bounded && c23.
+
 Fixpoint scan (l : lim) (n b : Z) (fs : list cframe) (t : list (Z * Z * Z * Z)) : bool :=
   match fs, t with
   | _, [] => true
   | [], _ :: _ => false
   | f :: fs', (status, n', b', buf') :: t' =>
-      let ok := (status =? S_OK) || (status =? S_WAITING) in
-      let bounded :=
-        ((max_chunks l =? 0) || (n' <=? max_chunks l)) &&
-        ((max_size l =? 0) || ((b' <=? max_size l) && (negb ok || (buf' <=? max_size l)))) in
-      let last_if_failed := match t' with [] => true | _ => ok && negb (is_partial f) end in
-      let c23 :=
-        match f with
-        | Chunk fin size _ _ =>
-            let exceeds := negb (fin =? 2) &&
-                           (((0 <? max_chunks l) && (max_chunks l <? n + 1)) ||
-                            ((0 <? max_size l) && (max_size l <? b + size))) in
-            if exceeds then negb ok else true
-        | Partial declared present =>
-            if (0 <? max_size l) && (max_size l <? declared) && (8 <? present) then negb ok else true
-        end in
-      bounded && last_if_failed && c23 && scan l n' b' fs' t'
+      (match t' with [] => true | _ => (status =? S_OK) && negb (is_partial f) end) &&
+      head_check l n b f (status, n', b', buf') &&
+      scan l n' b' fs' t'
   end.
 
 Definition oracle (c : case) (out : list Z) : bool :=
@@ -202,6 +209,8 @@ Fixpoint partial_only_last (fs : list cframe) : bool :=
   | [] => true
   | f :: r => match r with [] => true | _ => negb (is_partial f) && partial_only_last r end
   end.
+(* the limits are non-negative, a non-zero maximum message size is at least a frame header
+   (OPC UA requires >= 8192), frames are well-formed and only the last may be incomplete *)
 Definition valid (c : case) : Prop :=
-  0 <= c_mc c /\ 0 <= c_mms c /\ forallb frame_ok (c_frames c) = true /\
+  0 <= c_mc c /\ (c_mms c = 0 \/ 8 <= c_mms c) /\ forallb frame_ok (c_frames c) = true /\
   partial_only_last (c_frames c) = true.
